@@ -29,11 +29,12 @@ ENTRY = dict(
         "carve-out: request equal to the held value (even if the controller reported it outside its own bounds)": "documented carve-out, theorem `held_value_noop`: no-op returning True, nothing transmitted, nothing changed; the literal 'raises ValueError' is not claimed for it",
         "a report always replaces the triple (also while pending / same value / other bounds)": "theorem (`report_always_replaces`) + correspondence (histories through real frames)",
         "raw encoding of a requested value": "C17's conversion model (exact binary64), correspondence-validated",
-        "model = implementation": "correspondence (every table row x triples x boundary requests; histories with reports between attempts)",
+        "a refused / no-op second set while a call is in flight is inert": "theorem (`rejected_set_inert_while_pending`) + correspondence; an ACCEPTED overlapping call is outside this machine (C08)",
+        "model = implementation": "correspondence (every table row x triples x boundary requests; histories with reports between attempts, refused overlapping calls)",
     },
     assumptions=COMMON_ASSUME + [
         "requested values are finite (no NaN/inf) and 'on'/'off' are the only strings",
-        "one set call at a time per parameter",
+        "at most one ACCEPTED set call in flight per parameter (refused / no-op overlapping calls are modelled)",
     ],
     timeout={"quick": 600, "thorough": 1800},
 )
